@@ -222,6 +222,8 @@ func vC17Gen(e *vEnv, r *vRand) []vCase {
 		}
 		scripted = append([]vCase{{Ops: ops, Tags: []string{"window"}}}, scripted...)
 	}
+	// the call sites: attempts arriving at the real handlers (zz_verif_c17_sites_test.go)
+	scripted = append(scripted, vC17SiteGen(e, r)...)
 	cases = append(scripted, cases...)
 	// key sharing of getThrottleIp, all pairs of the address pool
 	var ops []string
@@ -300,10 +302,43 @@ func vC17Exec(t *testing.T, c *vCase) {
 		delays = append(delays, int64(d))
 	}
 	ctx := context.Background()
+	// the hub and backend server whose handlers the `site` ops go through (made when the first one comes)
+	var world *vC17World
+	defer func() {
+		if world != nil {
+			world.close()
+		}
+	}()
 	for _, line := range c.Ops {
 		f := strings.Fields(line)
 		out := "bad-op"
 		switch f[0] {
+		case "site":
+			if len(f) != 5 {
+				break
+			}
+			ns, _ := strconv.ParseInt(f[1], 10, 64)
+			now = vC17Base.Add(time.Duration(ns))
+			if world == nil {
+				var err error
+				if world, err = newVC17World(th); err != nil {
+					panic(err)
+				}
+			}
+			delayMu.Lock()
+			delayed = false
+			delayMu.Unlock()
+			ans := world.attempt(vDec(f[3]), vAddrFromToken(f[2]), f[4])
+			delayMu.Lock()
+			switch {
+			case ans == "http:429" || ans == "error:too_many_requests":
+				out = "refused " + ans
+			case delayed:
+				out = fmt.Sprintf("delayed %d %s", int64(lastDelay), ans)
+			default:
+				out = "passed " + ans
+			}
+			delayMu.Unlock()
 		case "attempt":
 			ns, _ := strconv.ParseInt(f[1], 10, 64)
 			now = vC17Base.Add(time.Duration(ns))
